@@ -188,6 +188,19 @@ let run_bytes line =
     hex_of_bytes r
   | _ -> "?"
 
+(* ---------- transclusion: same case line as harness/transclude.c *)
+let run_transclude line =
+  match split_on ' ' line with
+  | fmt :: search :: spath :: src :: files ->
+    let k = match int_of_string fmt with 0 | 1 | 12 -> EHtml | 2 | 3 | 4 -> ETex | 5 | 6 -> EFodt | 11 -> EMmd | _ -> ETxt in
+    let fs = List.filter_map (fun f -> match String.index_opt f '=' with
+      | Some i -> Some (bytes_of_hex (String.sub f 0 i), bytes_of_hex (String.sub f (i + 1) (String.length f - i - 1)))
+      | None -> None) files in
+    (match transclude_top fs k (bytes_of_hex search) (bytes_of_hex spath) (bytes_of_hex src) with
+     | Err e -> "ERR " ^ err_name e
+     | Ok (out, st) -> String.concat " " (hex_of_bytes out :: List.map hex_of_bytes st.manifest) ^ (if st.cyc then " !" else ""))
+  | _ -> "?"
+
 let () =
   let model = Sys.argv.(1) in
   let f = match model with
@@ -197,6 +210,7 @@ let () =
     | "lemon" -> run_lemon
     | "tree" -> run_tree
     | "bytes" -> run_bytes
+    | "transclude" -> run_transclude
     | _ -> failwith "unknown model" in
   try while true do
     let line = input_line stdin in
